@@ -162,7 +162,7 @@ type c11 struct {
 	st      pstate // sequential model (seq mode) / last known (epilogue)
 	clients []*c11client
 	waiters []*c11waiter
-	flying  []*asyncOp
+	flying  []c11flying
 
 	scripts  [][]c11op
 	barriers []*gate
@@ -176,6 +176,11 @@ type c11 struct {
 	anyFinished int32
 	counts      map[string]int64
 	script      []string
+}
+
+type c11flying struct {
+	op *asyncOp
+	t  c11target
 }
 
 type c11waiter struct {
@@ -467,18 +472,43 @@ func (c *c11) openAllPCs() bool {
 	fl := c.flying
 	c.flying = nil
 	for _, a := range fl {
-		if !c.cc.join(a) {
+		if !c.cc.join(a.op) {
 			return false
 		}
 	}
 	return true
 }
 
-func (c *c11) seqBlocking(name string, f func() *common.Panic) bool {
+// blockedIn: is a pipelined call currently blocked inside pipeline caller k?
+func (c *c11) blockedIn(k int) bool {
+	for _, f := range c.flying {
+		if f.t.Kind == 'p' && f.t.ID == k && !f.op.isDone() {
+			return true
+		}
+	}
+	return false
+}
+
+// seqBlocking runs Fulfill / Reject / Join.  mustWait: the model knows of a
+// call that is blocked inside the promise's own pipeline caller, so the
+// operation must not return before the script opens the gates ("Fulfill will
+// wait for any outstanding calls to the underlying PipelineCaller to yield
+// Answers").
+func (c *c11) seqBlocking(name string, mustWait bool, f func() *common.Panic) bool {
 	var pan *common.Panic
 	op := c.cc.goOp(name, func() { pan = f() })
-	for i := 0; i < 20; i++ {
+	n := 20
+	if mustWait {
+		n = 3000
+	}
+	for i := 0; i < n && !op.isDone(); i++ {
 		runtime.Gosched()
+	}
+	if mustWait && op.isDone() && pan == nil {
+		c.cc.violate("C11/resolve-did-not-wait", "Fulfill/Reject/Join returned while a call to the promise's PipelineCaller had not yielded an answer yet", name)
+	}
+	if mustWait {
+		c.count("resolve_had_to_wait", 1)
 	}
 	if !c.openAllPCs() {
 		return false
@@ -552,7 +582,7 @@ func (c *c11) seqCall(prom, path, client int, recv bool) bool {
 	if !ok {
 		return false
 	}
-	c.flying = append(c.flying, op)
+	c.flying = append(c.flying, c11flying{op, want})
 	c.seqCheckCall(r, want)
 	return true
 }
@@ -687,7 +717,7 @@ func (c *c11) runSeq(rec *common.Recorder, idx uint64, rng *common.RNG) bool {
 			if j >= 0 && c.chainResolved(c.st, j) {
 				c.count("join_to_resolved", 1)
 			}
-			if !c.seqBlocking(fmt.Sprintf("Join P%d->%d", i, j), func() *common.Panic { return c.doJoin(i, j) }) {
+			if !c.seqBlocking(fmt.Sprintf("Join P%d->%d", i, j), c.blockedIn(i), func() *common.Panic { return c.doJoin(i, j) }) {
 				return false
 			}
 			c.st.Join[i] = int8(j)
@@ -699,7 +729,7 @@ func (c *c11) runSeq(rec *common.Recorder, idx uint64, rng *common.RNG) bool {
 			reject := rng.Chance(1, 4)
 			c.logOp("resolve reject=%v", reject)
 			c.count("op_resolve", 1)
-			if !c.seqBlocking("Fulfill/Reject", func() *common.Panic { return c.resolveRoot(reject) }) {
+			if !c.seqBlocking("Fulfill/Reject", c.blockedIn(0), func() *common.Panic { return c.resolveRoot(reject) }) {
 				return false
 			}
 			if reject {
@@ -774,6 +804,9 @@ func (c *c11) epilogue(rng *common.RNG) bool {
 		}
 		c.finish(r)
 		c.st.Join[i] = int8(j)
+		if cc.numViol() > 0 {
+			return true
+		}
 	}
 	if c.st.Res == 0 {
 		reject := rng.Chance(1, 4)
@@ -790,11 +823,25 @@ func (c *c11) epilogue(rng *common.RNG) bool {
 			c.st.Res = resFulfilled
 		}
 	}
+	if cc.numViol() > 0 {
+		return true
+	}
 	if !c.checkWaiters(c.st) {
 		return false
 	}
 	// pipelined clients handed out earlier must now reach the resolved capability
 	for ci, cl := range c.clients {
+		if cl.c != nil {
+			ctx, cancel := context.WithCancel(context.Background())
+			cancel()
+			var rerr error
+			if !cc.run("Client.Resolve", func() { rerr = cl.c.Resolve(ctx) }) {
+				return false
+			}
+			if rerr != nil {
+				cc.violate("C11/client-not-resolved/still-promise", "a pipelined client handed out earlier is still an unresolved promise after the answer resolved", fmt.Sprintf("client(P%d,%s) Resolve: %v", cl.prom, c11Paths[cl.path], rerr))
+			}
+		}
 		want := c.expect(c.st, cl.prom, cl.path)
 		r := c.newRec(c11op{K: "ccall", J: ci}, true, cl.prom, cl.path)
 		r.client = ci
@@ -1235,6 +1282,29 @@ func (c *c11) checkHistory() {
 		}
 	}
 	_ = raced
+	// The pipeline caller of a promise must not be used any more once the
+	// Fulfill / Reject / Join that retires it has returned (Returner contract).
+	retired := map[int]int64{}
+	for _, r := range c.recs {
+		if !r.done {
+			continue
+		}
+		switch r.in.K {
+		case "resolve":
+			retired[0] = r.tRet
+		case "join":
+			retired[r.in.P] = r.tRet
+		}
+	}
+	for _, e := range evs {
+		if e.K == "end-psend" || e.K == "end-precv" {
+			if t, ok := retired[e.O]; ok && e.T > t {
+				cc.violate("C11/pipeline-call-after-resolution", "the PipelineCaller was still busy with a call after the Fulfill/Reject/Join that retires it had returned",
+					fmt.Sprintf("pc=%d uid=%d event@%d retired@%d", e.O, e.U, e.T, t))
+				break
+			}
+		}
+	}
 	res := porcupine.CheckOperationsTimeout(c.model(), ops, 20*time.Second)
 	switch res {
 	case porcupine.Ok:
